@@ -4,12 +4,59 @@ package main
 
 import (
 	"encoding/json"
+	"flag"
+	"fmt"
 	"os"
+	"reflect"
 
+	"github.com/goghcrow/go-co/seq"
 	"verif/harness/rt"
 )
 
+// stress: n recovered panics on one iterator (retrying the same step) must not
+// change what an unrelated, healthy iterator produces afterwards.
+func stress(n int) {
+	healthy := func() []int {
+		i := 0
+		it := seq.Start[int](seq.While[int](func() bool { i++; return i <= 5 },
+			seq.Delay[int](func() seq.Seq[int] { return seq.Bind[int](i, seq.Normal[int]) })))
+		var xs []int
+		for it.MoveNext() {
+			xs = append(xs, it.Current())
+		}
+		return xs
+	}
+	want := healthy()
+	bad := seq.Start[int](seq.Delay[int](func() seq.Seq[int] {
+		return seq.Bind[int](1, func() seq.Seq[int] { panic("boom") })
+	}))
+	bad.MoveNext()
+	for k := 0; k < n; k++ {
+		func() {
+			defer func() { _ = recover() }()
+			bad.MoveNext()
+		}()
+	}
+	var got []int
+	var perr any
+	func() {
+		defer func() { perr = recover() }()
+		got = healthy()
+	}()
+	if perr != nil || !reflect.DeepEqual(got, want) {
+		fmt.Printf("STRESS-FAIL after %d recovered panics: healthy iterator gives %v (panic %v), alone %v\n", n, got, perr, want)
+		os.Exit(1)
+	}
+	fmt.Println("stress ok")
+}
+
 func main() {
+	st := flag.Int("stress", 0, "number of recovered panics before checking a healthy iterator")
+	flag.Parse()
+	if *st > 0 {
+		stress(*st)
+		return
+	}
 	var cases []*rt.Case
 	if err := json.NewDecoder(os.Stdin).Decode(&cases); err != nil {
 		panic(err)
